@@ -18,7 +18,7 @@ def convolve(array, window, ignore_missing, axis):
             # Does this work?
             array[np.isnan(array)] = 0
         new_array = np.nan*np.zeros(array.shape)
-        new_array[:, (window-1):, :] = scipy.signal.convolve(array, c, "valid")
+        new_array[:, (window-1):, :] = scipy.signal.convolve(array, c, "valid", method="direct")
     elif axis == 'time':
         if window > array.shape[0]:
             verif.util.error("Window (%d) is longer than dimension size (%d)" % (window, array.shape[0]))
@@ -27,7 +27,7 @@ def convolve(array, window, ignore_missing, axis):
             # Does this work?
             array[np.isnan(array)] = 0
         new_array = np.nan*np.zeros(array.shape)
-        new_array[(window-1):, :, :] = scipy.signal.convolve(array, c, "valid")
+        new_array[(window-1):, :, :] = scipy.signal.convolve(array, c, "valid", method="direct")
     else:
         verif.util.error('Invalid axis %s' % axis)
     return new_array
